@@ -237,3 +237,14 @@ func runBoot(sc M) {
 	emit(ev)
 	_ = strings.ToUpper
 }
+
+// bootOrderVia decodes boot-order bytes through the store-backed accessor.
+func bootOrderVia(b []byte) error {
+	content := append(le32(7), b...)
+	files := fstest.MapFS{"/sys/firmware/efi/efivars/BootOrder-" + globalGUIDText: {Data: content}}
+	e := testfs.NewTestFS().With(files).Open()
+	for _, n := range e.GetBootOrder() {
+		e.GetBootEntry(n)
+	}
+	return nil
+}
